@@ -754,6 +754,11 @@ func (env *Env) call(x *ast.CallExpr) TV {
 		return TV{vc.strIndex(s.T, p.T), tInt}
 	}
 	p := env.findImport(qual)
+	if p != nil {
+		if fc := vc.P.cs.Funcs[p.Path()+"."+fname]; fc != nil && fc.Pure {
+			return env.applyPure(fc, x.Args)
+		}
+	}
 	if p != nil && deterministicPkg(p.Path()+"."+fname) {
 		// deterministic library function over value arguments: same uninterpreted function as at call sites
 		if fo, ok := p.Scope().Lookup(fname).(*types.Func); ok {
